@@ -1,6 +1,7 @@
 import Driver.Util
 import MpcVerif.Model.Mpa
 import MpcVerif.Model.Fold
+import MpcVerif.Model.FoldTable
 
 namespace Drv.C12
 open Mpc Mpc.Mpa Mpc.Fold
@@ -120,6 +121,47 @@ def aliasLine (args : List String) : String :=
     | _, _, _, _, _, _ => "bad-op"
   | _ => "bad-op"
 
+def parseCons (s : String) : Option Consumer :=
+  if s == "xor" then some .xor else if s == "add" then some .add else if s == "sub" then some .sub else none
+
+/-- item token `op:k:n:a:b:aform:bform:consumer` (`op = plain`: the typed constant alone) -/
+def parseItem (s : String) : Option Item :=
+  match s.splitOn ":" with
+  | [op, k, n, a, b, af, bf, cons] => do
+    let op ← (if op == "plain" then some none else (Fold.parseOp op).map some)
+    pure ⟨op, ← parseKind k, ← n.toNat?, ← a.toInt?, ← b.toInt?, ← parseForm af, ← parseForm bf, ← parseCons cons⟩
+  | _ => none
+
+/-- `multi <inline|vars> <item>...`: outputs of the constant variant at `x = 0` (Model/FoldTable.lean). -/
+def multiLine (args : List String) : String :=
+  match args with
+  | style :: toks =>
+    match toks.mapM parseItem with
+    | some items =>
+      if style != "inline" && style != "vars" then "bad-op" else
+      resStr (fun (l : List Nat) => " ".intercalate (l.map hexNat)) (multiOutputs cvName (style == "vars") items)
+    | none => "bad-op"
+  | _ => "bad-op"
+
+/-- `multiwhy <idx> <inline|vars> <item>...` -/
+def multiWhyLine (args : List String) : String :=
+  match args with
+  | idx :: style :: toks =>
+    match idx.toNat?, toks.mapM parseItem with
+    | some idx, some items => resStr id (multiCause cvName (style == "vars") items idx)
+    | _, _ => "bad-op"
+  | _ => "bad-op"
+
+/-- `ident <k1> <n1> <v1> <k2> <n2> <v2>`: one Name or two? -/
+def identLine (args : List String) : String :=
+  match args with
+  | [k1, n1, v1, k2, n2, v2] =>
+    match parseKind k1, n1.toNat?, v1.toInt?, parseKind k2, n2.toNat?, v2.toInt? with
+    | some k1, some n1, some v1, some k2, some n2, some v2 =>
+      resStr (fun (b : Bool) => if b then "same" else "distinct") (identSame cvName k1 n1 v1 k2 n2 v2)
+    | _, _, _, _, _, _ => "bad-op"
+  | _ => "bad-op"
+
 /-- Line protocol of property C12: `c12 <kind> <args...>`. -/
 def handle (args : List String) : String :=
   match args with
@@ -129,6 +171,9 @@ def handle (args : List String) : String :=
   | "rt" :: rest => rtLine rest
   | "hyp" :: rest => hypLine rest
   | "alias" :: rest => aliasLine rest
+  | "multi" :: rest => multiLine rest
+  | "ident" :: rest => identLine rest
+  | "multiwhy" :: rest => multiWhyLine rest
   | _ => "bad-op"
 
 end Drv.C12
